@@ -203,7 +203,11 @@ def leaf(draw, dim, ctx, hint, force=None):
         F = [[f[0], f[2], f[1]] for f in F]
     elif winding == "mixed":
         F = [[f[0], f[2], f[1]] if i % 3 == 1 else list(f) for i, f in enumerate(F)]
-    return {"t": "mesh", "var": var, "verts": V, "faces": F, "kind": mk, "winding": winding}
+    out = {"t": "mesh", "var": var, "verts": V, "faces": F, "kind": mk, "winding": winding}
+    if draw(st.integers(0, 2)) == 0:
+        # the documented tolerance argument ("error tolerance for checking if points are at the boundary")
+        out["tol"] = _r(h * draw(st.sampled_from([0.002, 0.005])), 6)
+    return out
 
 
 def probe_envs(ctx):
